@@ -31,7 +31,7 @@ func init() {
 		ID:        "C17",
 		Race:      true,
 		Technique: "runtime monitoring: Go race detector over goroutine storms on shared parsed trees + solo-vs-concurrent differential + register-history check (direct and with porcupine) of the splat symbol's per-context state recorded through the tag-guarded hooks, with seeded yields at the hook sites",
-		Rule: "each case parses one program once (native expression rich in splats of every shape; native body decoded with hcldec; the same body as JSON; a body with dynamic blocks expanded per goroutine) and lets G in {2,4,8,16,32} goroutines, each with its own child EvalContext of a shared parent (which also publishes functions defined in configuration, ext/userfunc, with for expressions and splats in their bodies) holding goroutine-unique values, repeat Value / Variables / Decode / PartialContent+JustAttributes calls; every result is compared with the result of the same call run alone in the same context before the storm; the worker is the -race build; " +
+		Rule: "each case parses one program once (native expression rich in splats of every shape; native body decoded with hcldec; the same body as JSON; a body with dynamic blocks expanded per goroutine; a native or JSON body decoded with gohcl.DecodeBody into values of struct types the process has not handed to gohcl before) and lets G in {2,4,8,16,32} goroutines, each with its own child EvalContext of a shared parent (which also publishes functions defined in configuration, ext/userfunc, with for expressions and splats in their bodies) holding goroutine-unique values, repeat Value / Variables / Decode / PartialContent+JustAttributes calls; every result is compared with the result of the same call run alone in the same context before the storm; the worker is the -race build; " +
 			"non-trivial = the storm produced at least one observed overlap (another goroutine's event on a splat symbol between a goroutine's set and its clear) or, for programs without splats, at least 2 goroutines were inside calls on the shared tree at the same time; distinct by program source + G",
 		Assumptions: []string{"the Go race detector only reports races on executions that happened; absence of a report is not absence of a race", "events are recorded inside the symbol's own lock, so their order is the order in which the state changed"},
 		Quick:       Plan{Batches: 8, PerBatch: 60, MinNonTrivial: 100},
@@ -319,7 +319,9 @@ func c17Funcs() map[string]function.Function {
 
 func c17Program(c *core.Case) (*c17Prog, *gen.Scope) {
 	r := c.Rng
-	switch k := r.Intn(10); {
+	switch k := r.Intn(11); {
+	case k == 10:
+		return c17GohclProgram(c)
 	case k < 5:
 		sc := gen.NewScope(r, gen.ValOpts{StrLevel: 1})
 		sc.Set("deep", gen.Value(r, cty.List(cty.Object(map[string]cty.Type{"id": cty.Number, "tags": cty.List(cty.String), "sub": cty.Object(map[string]cty.Type{"name": cty.String})})), gen.ValOpts{StrLevel: 1}))
@@ -664,7 +666,7 @@ func c17Case(c *core.Case) {
 		return
 	}
 	G := gen.Pick(r, []int{2, 4, 8, 16, 32})
-	total := map[string]int{"native-expression": 384, "native-body": 192, "json-body": 192, "dynblock-body": 96}[p.kind]
+	total := map[string]int{"native-expression": 384, "native-body": 192, "json-body": 192, "dynblock-body": 96, "gohcl-body": 192, "gohcl-json-body": 192}[p.kind]
 	iters := max(total/G, 2)
 	if c.Tier == "thorough" && gen.Chance(r, 0.2) {
 		iters *= 4
